@@ -85,6 +85,9 @@ func stepsWorker(req N) (resp N) {
 		return N{"k": "nocompile", "msg": err.Error()}
 	}
 	cfg := risor.NewConfig()
+	if md, _ := req["moddir"].(string); md != "" {
+		cfg = risor.NewConfig(risor.WithLocalImporter(md))
+	}
 	machine = vm.New(code, cfg.VMOpts()...)
 	act := 0 // activation counter: a new number whenever fp changes upward
 	lastFp := -1
@@ -236,6 +239,7 @@ func main() {
 	out := fs.String("out", "", "")
 	max := fs.Int("max", 4000, "")
 	values := fs.Bool("values", false, "steps: record the value-level view of the operand stack")
+	moddir := fs.String("moddir", "", "steps: directory of importable modules")
 	fs.Parse(os.Args[2:])
 	rows, err := run.ReadNDJSON(*in)
 	if err != nil {
@@ -248,7 +252,7 @@ func main() {
 		case "codes":
 			reqs[i] = N{"src": r["src"]}
 		case "steps":
-			reqs[i] = N{"src": r["src"], "max": *max, "values": *values}
+			reqs[i] = N{"src": r["src"], "max": *max, "values": *values, "moddir": *moddir}
 		case "scale":
 			reqs[i] = r
 		}
